@@ -1,4 +1,4 @@
 From Coq Require Extraction ExtrOcamlBasic.
-From GV Require Import Front.SpanCheck Front.LayoutCheck.
+From GV Require Import Front.SpanCheck Front.LayoutCheck Front.Layout.
 Extraction Language OCaml.
-Extraction "model.ml" spans_ok first_bad layout_ok which_fails.
+Extraction "model.ml" spans_ok first_bad layout_ok which_fails layout.
